@@ -255,6 +255,8 @@ class MolecularOrbitals:
     def occsa(self, occsa):
         if self.kind == "generalized":
             raise NotImplementedError
+        if np.shape(occsa) != (self.norba,):
+            raise TypeError(f"Expecting shape ({self.norba},) for occsa, got {np.shape(occsa)}")
         if self.kind == "restricted":
             occsa = np.array(occsa)
             if self.occs is None:
@@ -304,6 +306,8 @@ class MolecularOrbitals:
     def occsb(self, occsb):
         if self.kind == "generalized":
             raise NotImplementedError
+        if np.shape(occsb) != (self.norbb,):
+            raise TypeError(f"Expecting shape ({self.norbb},) for occsb, got {np.shape(occsb)}")
         if self.kind == "restricted":
             occsb = np.array(occsb)
             if self.occs is None:
